@@ -75,6 +75,12 @@ def scenarios(thorough):
     out.append({"phase": "build", "label": "launch-set-twice", "script": {"build": {"kind": "pass", "launch": LAUNCH3, "launch2": second, "store": STORE3}}})
     two_defaults = dict(LAUNCH3, processes=[dict(p, default=p["type"] in ("web", "worker", "cron")) for p in LAUNCH3["processes"]])
     out.append({"phase": "build", "label": "several-default-processes", "script": {"build": {"kind": "pass", "launch": two_defaults}}})
+    # a restored layer whose metadata holds keys the typed metadata struct does not declare, handled
+    # by every strategy of the trait API (typed metadata v1 = {version})
+    legacy = {"a.toml": '[metadata]\nversion = "1"\nk1 = 1\nk2 = "two"\nk3 = [3]\nchecksum = "abc"\nsource = { url = "u", rev = 7 }\n', "a/keep": "k"}
+    for strat in ("keep", "update", "recreate"):
+        out.append({"phase": "build", "label": f"undeclared-metadata-keys:handle-{strat}", "pre": legacy,
+                    "script": {"build": {"kind": "pass", "ops": [{"op": "handle", "name": "a", "meta_type": "v1", "types": [True, True, True], "strategy": strat, "result": dict(RESULT3, metadata={"version": "2"})}]}}})
     # slices listing a glob twice (inside one slice and across slices)
     red = dict(LAUNCH3, slices=[["*.a", "b", "*.a", "c", "d"], ["b", "e", "f", "e"]])
     out.append({"phase": "build", "label": "launch-redundant-slice-globs", "script": {"build": {"kind": "pass", "launch": red}}})
